@@ -1455,6 +1455,10 @@ class tensor:
         if len(grps.shape) == 1:
             grps = np.array([grps])
 
+        # A mode can take part in a symmetry only once
+        if any(np.unique(grp).size != np.size(grp) for grp in grps):
+            assert False, "Cannot have repeated modes in a symmetry group"
+
         data = self.data.copy()
 
         # Use default newer faster version
